@@ -295,6 +295,12 @@ RESTART:
 		if !value.IsValid() {
 			left.errorf("identifier %q is not available in the current scope", fields[lef])
 		}
+		if !value.CanSet() {
+			left.errorf("field %q can't be assigned to (the struct is not addressable or the field is unexported)", fields[lef])
+		}
+		if !right.IsValid() || !right.Type().AssignableTo(value.Type()) {
+			left.errorf("a value of type %s can't be assigned to field %q of type %s", getTypeString(right), fields[lef], value.Type())
+		}
 		value.Set(right)
 	case reflect.Map:
 		value.SetMapIndex(reflect.ValueOf(&fields[lef]).Elem(), right)
